@@ -23,7 +23,7 @@ A half-closeable protocol answers readConnectionLost with loseConnection() once 
 
 Events (observable only): w/ws (bytes handed to transport.write/writeSequence), r (dataReceived: offset decoded
 from content, length), req (close call), rdl / wrl (half-close callbacks), lost (connectionLost + reason class),
-end (both sides lost and a quiet period passed).  Recording only; TLC decides (specs/TcpStreamTrace.tla).
+end (both sides lost and a quiet period passed) or gaveup (the connection stopped making progress).  Recording only; TLC decides (specs/TcpStreamTrace.tla).
 """
 import json
 import socket
@@ -263,8 +263,9 @@ def main():
             for k in ("timer", "idle"):
                 if state[k] is not None and state[k].active():
                     state[k].cancel()
-            if not timed_out:
-                ev.append({"e": "end"})
+            # "end": both protocols were told of the loss and a quiet period passed; "gaveup": the connection made no
+            # progress any more (not an action of the specification: a connection must come to its end)
+            ev.append({"e": "end"} if not timed_out else {"e": "gaveup"})
             state["done"] = True
             results.append({"ev": list(ev), "timed_out": bool(timed_out)})
             d = state["port"].stopListening()
